@@ -111,7 +111,7 @@ func srvsessFacts(fd *ast.FuncDecl) (unsupported bool, lookup string, nilChecked
 		}
 		if b, ok := ifs.Cond.(*ast.BinaryExpr); ok && b.Op == token.EQL {
 			if id, ok := b.Y.(*ast.Ident); ok && id.Name == "nil" {
-				if sessVars[srvsecSelChain(b.X)] {
+				if sessVars[srvsecSelChain(b.X)] || srvsessIsSessionCall(b.X) {
 					nilChecked = true
 				}
 			}
